@@ -333,6 +333,7 @@ type node struct {
 	flaky   bool
 	dyn     bool
 	rot     bool
+	resize  bool // validator list of size sizeAt(height) taken from the head of base
 	base    []dbft.PublicKey
 	wantTx  map[uint64]bool
 	subs    int
@@ -418,6 +419,11 @@ func (c logCore) Write(e zapcore.Entry, fs []zapcore.Field) error {
 		c.n.skipRecv = false
 		return nil
 	}
+	if e.Message == "too big validator index" {
+		// this log line of a nested OnReceive names the sender only: height and view are reported as -1 (wildcard of the model's selector)
+		c.n.logf("RECV 0 %v -1 -1", m["from"])
+		return nil
+	}
 	t := map[string]int{"ChangeView": 0, "PrepareRequest": 32, "PrepareResponse": 33, "Commit": 48, "PreCommit": 49, "RecoveryRequest": 64, "RecoveryMessage": 65}[fmt.Sprint(m["type"])]
 	c.n.logf("RECV %d %v %v %v", t, m["from"], m["height"], m["view"])
 	return nil
@@ -450,6 +456,9 @@ func newNode(id int, vals []dbft.PublicKey, amev int64, w *bufio.Writer, pre ...
 			if n.rot {
 				k := int(n.height+1) % len(n.base)
 				n.vals = append(append([]dbft.PublicKey{}, n.base[k:]...), n.base[:k]...)
+			}
+			if n.resize {
+				n.vals = append([]dbft.PublicKey{}, n.base[:sizeAt(n.height+1, len(n.base))]...)
 			}
 			if n.muted == 0 {
 				var sb strings.Builder
@@ -819,4 +828,18 @@ func (n *node) recv(p *Payload) {
 	n.skipRecv = true
 	n.op("M "+c.out(), func() { n.d.OnReceive(&c) })
 	n.skipRecv = false
+}
+
+// sizeAt is the number of validators at a height in the resize mode of the generator: N, N-1, N, N-2, ...
+func sizeAt(h uint32, n int) int {
+	switch h % 4 {
+	case 0:
+		return n - 1
+	case 2:
+		if n >= 4 {
+			return n - 2
+		}
+		return n - 1
+	}
+	return n
 }
